@@ -107,3 +107,22 @@ Proof. exact ev_merge. Qed.
 
 Print Assumptions C04_r1cs_builder_sound.
 Print Assumptions C04_r1cs_add_value.
+
+(* the linear expressions the builder creates are strictly sorted by wire id (the precondition of
+   the heap merge of builder.add): the merge result is sorted whatever its operands, and every
+   API call keeps every program variable sorted *)
+From GnarkV Require Import Frontend.BuilderSorted.
+Theorem C04_r1cs_add_sorted :
+  forall (F : Type) (zero : F) (add : F -> F -> F) (opp : F -> F) (eq_dec : forall x y : F, {x = y} + {x <> y})
+         (vars : list (lexp F)) (sb : bool),
+  ssorted F (merge_les F zero add opp eq_dec vars sb).
+Proof. exact merge_sorted. Qed.
+Theorem C04_r1cs_vars_sorted :
+  forall (F : Type) (zero one : F) (add mul sub : F -> F -> F) (opp inv : F -> F)
+         (eq_dec : forall x y : F, {x = y} + {x <> y}) (cst : Z -> F)
+         (vars : list (lexp F)) (st : bstate F) (o : op) (vars' : list (lexp F)) (st' : bstate F),
+  Forall (ssorted F) vars ->
+  b_step F zero one add mul sub opp inv eq_dec cst (vars, st) o = (vars', st') -> Forall (ssorted F) vars'.
+Proof. exact step_sorted. Qed.
+Print Assumptions C04_r1cs_add_sorted.
+Print Assumptions C04_r1cs_vars_sorted.
